@@ -184,13 +184,17 @@ def _classify(cg: CallGraph, fi: FuncInfo, site: ReadSite, g: CFG, pm, binds) ->
     n_text = norm(n_expr)
     n_is_one = is_const(n_expr) and const_value(n_expr) == 1
     # -- re-read of an extent that was just parsed:  size = S.tell() - start ; S.seek(start) ; S.read(size)
-    if isinstance(n_expr, ast.Name):
-        defs = binds.get(n_expr.id, [])
-        if len(defs) == 1 and isinstance(defs[0], ast.BinOp) and isinstance(defs[0].op, ast.Sub):
-            l = defs[0].left
+    diff = n_expr
+    if isinstance(n_expr, ast.Name) and len(binds.get(n_expr.id, [])) == 1:
+        diff = binds[n_expr.id][0]
+    if isinstance(diff, ast.BinOp) and isinstance(diff.op, ast.Sub):
+        if True:
+            l = diff.left
+            if isinstance(l, ast.Name) and len(binds.get(l.id, [])) == 1:
+                l = binds[l.id][0]  # end = S.tell() held in a local
             if isinstance(l, ast.Call) and isinstance(l.func, ast.Attribute) and l.func.attr == "tell" and norm(l.func.value) == recv_text \
-                    and isinstance(defs[0].right, ast.Name):
-                start = defs[0].right.id
+                    and isinstance(diff.right, ast.Name):
+                start = diff.right.id
                 seeks = [c for c in walk_body(fi.node.body) if isinstance(c, ast.Call) and isinstance(c.func, ast.Attribute)
                          and c.func.attr == "seek" and norm(c.func.value) == recv_text and c.args and norm(c.args[0]) == start]
                 if seeks:
